@@ -9,7 +9,7 @@ import (
 
 func init() {
 	register("C14", runC14,
-		"Decides, for every schedule at once, the protocol clauses the single-flight/bounded-pool behaviour rests on: (R1) in each of Prometheus.{Query,RangeQuery,Config,Flags,Metadata} the per-key lock dominates every send on the query channel (also sends made by goroutines the method starts), the matching deferred unlock lies on every path from the lock to an exit, the key mentions every parameter that distinguishes the question, and partitionLocker waits in a loop / broadcasts after delete under its own lock; (R2) querier.Run is called only by processJob, processJob only by queryWorker, queryWorker only from a `go` statement in Prometheus.StartWorkers inside a loop that runs exactly `concurrency` times, doRequest only by Run methods, http.Client.Do only by doRequest, and StartWorkers is started once per instance; (R3) processJob consults the cache before Run on every path where a cache exists, a hit returns without Run, set is reachable only with a nil error, and every CacheKey hashes the server URI, the endpoint and every distinguishing field; (R4) every access to the guarded fields of queryCache, partitionLocker, unsupporedAPIs and disabledChecks holds the owning mutex.",
+		"Decides, for every schedule at once, the protocol clauses the single-flight/bounded-pool behaviour rests on: (R1) in each of Prometheus.{Query,RangeQuery,Config,Flags,Metadata} the per-key lock dominates every send on the query channel (also sends made by goroutines the method starts), the matching deferred unlock lies on every path from the lock to an exit, the key mentions every parameter that distinguishes the question, and partitionLocker waits in a loop / broadcasts after delete under its own lock; (R2) querier.Run is called only by processJob, processJob only by queryWorker, queryWorker only from a `go` statement in Prometheus.StartWorkers inside a loop that runs exactly `concurrency` times, doRequest only by Run methods, http.Client.Do only by doRequest, and StartWorkers is started once per instance; (R3) processJob consults the cache before Run on every path where a cache exists, a hit returns without Run, set is reachable only with a nil error, and every CacheKey hashes the server URI, the endpoint and every distinguishing field; (R4) every access to the guarded fields of queryCache, partitionLocker, unsupporedAPIs holds the owning mutex.",
 		"liveness and fairness, the rate limiter, cache expiry arithmetic (gc), what the HTTP transport does.")
 }
 
@@ -225,17 +225,22 @@ func runC14(c *Ctx) {
 		{Type: "internal/promapi.queryCache", Fields: []string{"entries", "stats", "evictions"}, Mutex: "mu"},
 		{Type: "internal/promapi.partitionLocker", Fields: []string{"s"}, Mutex: "l"},
 		{Type: "internal/promapi.unsupporedAPIs", Fields: []string{"noConfig", "noFlags", "noMetadata"}, Mutex: "mtx"},
-		{Type: "internal/promapi.disabledChecks", Fields: []string{"apis"}, Mutex: "mtx"},
-	}, map[string]string{
-		"internal/promapi.disabledChecks.read": "map escapes by reference; accepted because its only consumer runs after all workers finished (checked below)",
-	})
-	// the escape exemption: GetDisabledChecks is consumed only in checkRules after the results channel is drained
-	if gdc := c.MustFunc("C14-R4", "internal/promapi.FailoverGroup.GetDisabledChecks"); gdc != nil {
+	}, map[string]string{})
+}
+
+// disabledChecksEscape: the map behind FailoverGroup.GetDisabledChecks escapes
+// by reference; that is accepted because its only consumer is checkRules after
+// the results channel was drained (all workers have stopped). Reported under R
+// (C11-R4: the bookkeeping of disabled checks is about races and scheduling,
+// not about how often a server is asked).
+func disabledChecksEscape(c *Ctx, R string) {
+	p := c.P
+	if gdc := c.MustFunc(R, "internal/promapi.FailoverGroup.GetDisabledChecks"); gdc != nil {
 		callers := p.CallersOf(gdc.Obj)
 		for _, cs := range callers {
 			key := "GetDisabledChecks caller " + cs.Caller.Name
 			if cs.Caller.Name != "cmd/pint.checkRules" || cs.InLit {
-				c.Bad("C14-R4", key, cs.Call.Pos(), "the unguarded disabled-checks map is read from a place not known to run after all workers stopped")
+				c.Bad(R, key, cs.Call.Pos(), "the unguarded disabled-checks map is read from a place not known to run after all workers stopped")
 				continue
 			}
 			fl := p.NewFlow(cs.Caller)
@@ -246,7 +251,7 @@ func runC14(c *Ctx) {
 				target = &s
 			}
 			if target == nil {
-				c.Undecided("C14-R4", key, cs.Call.Pos(), "call site not found in CFG")
+				c.Undecided(R, key, cs.Call.Pos(), "call site not found in CFG")
 				continue
 			}
 			// must pass the drain loop: range over a channel of reporter.Report
@@ -258,9 +263,9 @@ func runC14(c *Ctx) {
 				ch, isChan := cinfo.TypeOf(e).Underlying().(*types.Chan)
 				return isChan && typeQName(ch.Elem()) == "internal/reporter.Report"
 			})
-			c.Check(ok, "C14-R4", key+" after results drained", cs.Call.Pos(), "ordered after the fan-in loop", "GetDisabledChecks can run while workers are still calling DisableCheck")
+			c.Check(ok, R, key+" after results drained", cs.Call.Pos(), "ordered after the fan-in loop", "GetDisabledChecks can run while workers are still calling DisableCheck")
 		}
-		c.Check(len(callers) >= 1, "C14-R4", "GetDisabledChecks has a consumer", gdc.Decl.Pos(), itoa(len(callers))+" caller(s)", "no callers")
+		c.Check(len(callers) >= 1, R, "GetDisabledChecks has a consumer", gdc.Decl.Pos(), itoa(len(callers))+" caller(s)", "no callers")
 	}
 }
 
@@ -571,7 +576,7 @@ func c14CacheR(c *Ctx, R string) {
 		c.Check(okKey, R, "processJob:key is query.CacheKey()", getCall.Pos(), "CacheKey()", "cache key is not the query's CacheKey()")
 
 		// staleness bookkeeping: a time field whose age gc() tests (now.Sub(ce.F)) is stamped with c.now() when the entry is stored
-		if gc := c.MustFunc(R, "internal/promapi.queryCache.gc"); gc != nil {
+		if gc := c.MustFunc(R, "internal/promapi.queryCache.gc"); gc != nil && R == "C14-R3" {
 			ginfo := gc.Pkg.TypesInfo
 			aged := map[string]bool{}
 			ast.Inspect(gc.Decl.Body, func(n ast.Node) bool {
@@ -614,9 +619,11 @@ func c14CacheR(c *Ctx, R string) {
 	if R == "C14-R3" {
 		c14TemplateFields(c)
 	}
-	cacheExpiryWriters(c, R)
+	if R == "C14-R3" {
+		cacheExpiryWriters(c, R)
+	}
 
-	// CacheKey coverage
+	// CacheKey coverage (under another rule id only the part that keeps upstreams apart: the server URI)
 	qt := p.LookupType("internal/promapi", "querier")
 	if qt == nil {
 		return
@@ -665,6 +672,9 @@ func c14CacheR(c *Ctx, R string) {
 			})
 		}
 		c.Check(hasURI, R, "CacheKey:"+tq+":server URI", hashCall.Pos(), "hashed", "cache key ignores the server URI (answers of one upstream are served for another)")
+		if R != "C14-R3" {
+			continue
+		}
 		c.Check(hasEndpoint, R, "CacheKey:"+tq+":endpoint", hashCall.Pos(), "hashed", "cache key ignores the endpoint")
 		for _, f := range structFields(tn) {
 			if why, ok := exemptFields[f]; ok {
